@@ -477,6 +477,12 @@ class Standardize(Relation):
 
     def _column(self, rng, n):
         c = int(rng.integers(0, 6))
+        if rng.random() < 0.05:
+            # a column holding nan / inf: every cell becomes nan (all zeros if it is constant +-inf); model only
+            col = [float(x) for x in rng.choice([float("inf"), float("-inf"), float("nan"), 1.0, 2.5, 0.0], size=n)]
+            if all(np.isfinite(col)):
+                col[int(rng.integers(0, n))] = float("inf")
+            return col, "non-finite"
         if c == 0:
             v = float(rng.choice([0.1, 0.7, 1.1, 2.3, 0.3, 5.0, -3.3, 0.0, -0.0, 1e-3, 123.456, 1 / 3]))
             return [v] * n, "constant"
@@ -815,6 +821,9 @@ class OpSeq(Relation):
             distinct_names = rng.random() < 0.6
         names = [f"p{j}" for j in range(m)] if distinct_names else [str(rng.choice(SEQ_NAMES)) for _ in range(m)]
         data = [[f2b(float(rng.choice(SEQ_CELLS))) for _ in range(m)] for _ in range(n)]
+        if rng.random() < 0.06:  # nan / inf cells: identified nans round-trip, a standardized column becomes nan
+            for _ in range(int(rng.integers(1, 4))):
+                data[int(rng.integers(0, n))][int(rng.integers(0, m))] = f2b(float(rng.choice([float("nan"), float("inf"), float("-inf")])))
         return samples, names, data
 
     def _put_m9(self, rng, data, where=None):
